@@ -79,13 +79,15 @@
 (*                    string                           -> ExposedAsWritten *)
 (*   "acceptsNewlineVersion"  set_version accepts a valid version followed *)
 (*                    by a newline                     -> NormalFormEdited *)
+(*   "StickyParseFlag"  a per-object flag set by one parse and read after  *)
+(*                    the next (Mode "reuse")       -> ParseIsHistoryFree  *)
 (*   "keepNoDetails"  the rejected ' --' line is kept as a change line:    *)
 (*                    NOT a violation (still a normal form) -- documents   *)
 (*                    that the law is insensitive to it.                   *)
 (***************************************************************************)
 EXTENDS Integers, Sequences, FiniteSets, TLC, Json
 
-CONSTANTS Mode,        \* "lts" | "text" | "edit" | "hist"
+CONSTANTS Mode,        \* "lts" | "text" | "edit" | "hist" | "reuse"
           Classes,     \* classes a mutation may insert (lts: the classes explored)
           AEAs,        \* allow_empty_author settings explored (subset of BOOLEAN)
           MaxLines,    \* longest text
@@ -425,7 +427,10 @@ NoText == <<>>                       \* "nothing kept"; a kept text is <<text>>
 \*     token shown>> after in-place edits of handed-out objects;  mut: blocks (of this object) whose
 \*     handed-out Version was edited: what THEY show as version afterwards is not judged
 \* std: every add_change of the history so far used today's position (RulePos)
-RInit == [rc |-> <<>>, om |-> <<>>, out |-> <<>>, fresh |-> FALSE, what |-> 0, vt |-> {}, mut |-> {}, std |-> TRUE]
+\* pf, f2 (Mode "reuse"): the parse under test runs on an object that was used before; pf: a per-object
+\*     flag some earlier parse left behind ("the earlier text ended in a newline"), f2: the form of THIS input
+RInit == [rc |-> <<>>, om |-> <<>>, out |-> <<>>, fresh |-> FALSE, what |-> 0, vt |-> {}, mut |-> {}, std |-> TRUE,
+          pf |-> TRUE, f2 |-> "text"]
 Shown(r, tok) == IF \E x \in r.vt : x[1] = tok THEN (CHOOSE x \in r.vt : x[1] = tok)[2] ELSE tok
 RBlock(d, r, i) == IF BlockRenderCache /\ i <= Len(r.rc) /\ r.rc[i] # NoText THEN r.rc[i][1] ELSE FormatBlock(d.bl[i])
 RECURSIVE ROlder(_, _, _)
@@ -491,7 +496,8 @@ Ctl(p) == [st |-> p.st, old |-> p.old, w |-> p.nw, nb |-> p.nb, nonblank |-> p.n
 \* behaviours
 
 Init == /\ P = PInit /\ aea \in AEAs /\ sraised = FALSE /\ text = <<>> /\ gen = GenInit
-        /\ budget = Budget /\ phase = "text" /\ D = EmptyDoc /\ ops = <<>> /\ rs = RInit
+        /\ budget = Budget /\ phase = "text" /\ D = EmptyDoc /\ ops = <<>>
+        /\ rs \in (IF Mode = "reuse" THEN {[RInit EXCEPT !.pf = a, !.f2 = b] : a \in BOOLEAN, b \in {"text", "lines"}} ELSE {RInit})
 
 Keep == UNCHANGED <<aea, phase, D, ops, rs>>
 
@@ -547,7 +553,7 @@ DupStep(m) ==      \* the generated line appears twice
          /\ P' = Eat(p1, l2) /\ text' = text \o <<l1, l2>>
          /\ sraised' = (sraised \/ StrictAfter(P, l1) \/ StrictAfter(p1, l2))
    /\ budget' = budget - 1 /\ Keep
-TextNext == /\ Mode \in {"text", "edit", "hist"} /\ phase = "text"
+TextNext == /\ Mode \in {"text", "edit", "hist", "reuse"} /\ phase = "text"
             /\ \/ \E m \in {"GenLeadBlank", "GenHeader", "GenChange", "GenBlankInBlock", "GenTrailer", "GenBlankBetween"} :
                       GenStep(m) \/ DeleteStep(m) \/ DupStep(m)
                \/ \E c \in Classes : InsertStep(c)
@@ -631,6 +637,17 @@ FormsAgree       == (Mode # "lts" /\ phase = "text" /\ P.nonblank) => PEofF(P, "
 NormalFormEdited == phase = "edit" => NormalFormOf(D)
 \* formatting what was parsed gives the input back whenever nothing was warned about (lenient = strict)
 CleanRoundTrip   == (Mode # "lts" /\ phase = "text" /\ Res.nw = 0 /\ Formattable(Res.doc)) => Format(Res.doc) = text
+
+\* C04 / C15, call histories on ONE object (Mode "reuse"): a parse depends on nothing but its own input.  The
+\* object is whatever 1-3 earlier parses of arbitrary texts / forms / flags left; parse_changelog starts from
+\* its own input only.  Bug = "StickyParseFlag": a per-object flag is assigned by the str / bytes branch of a
+\* parse only and read by the formatter ("the text had no final newline"), so it survives a later parse from
+\* a file object / iterable of lines                                           -> ParseIsHistoryFree
+ObjFinalNewline(r) == IF Bug = "StickyParseFlag" /\ r.f2 = "lines" THEN r.pf ELSE TRUE
+ObjText(r, d) == IF ObjFinalNewline(r) THEN Format(d) ELSE Format(d) \o <<[c |-> "NoFinalNewline", id |-> -9, h |-> <<>>]>>
+ParseIsHistoryFree == (Mode = "reuse" /\ phase = "text") =>
+                         /\ ObjText(rs, PEofF(P, rs.f2).doc) = Format(PEofF(P, rs.f2).doc)       \* = what a fresh object gives
+                         /\ WellFormedText => ObjText(rs, Res.doc) = text
 
 \* C04 / C15, histories: every observed output is the reference Format of the CURRENT document
 FormatIsCurrent == rs.fresh => rs.out = <<RefOut(D, rs.what)>>
